@@ -29,6 +29,11 @@ def rebuild_case(draw, tier, prepopulate=False, partial_decoys=False):
         t = dict(t)
         t["name"] = "%s-t%d" % (t["name"], ti)
         creator = draw(st.sampled_from(CREATORS))
+        # the tool's own `--align` output (v1 with BEP 47 padding entries): padding is zeros, never a file to look for
+        align = creator == "TorrentFile" and not t["single"] and draw(st.sampled_from([True, False, False]))
+        if draw(st.sampled_from([True] + [False] * 14)):
+            for f in t["files"]:
+                f["size"] = 0          # a torrent of empty files only (no piece at all in v1)
         if not t["single"] and len(t["files"]) == 1:
             if t["files"][0]["path"] == [t["name"]]:
                 t["files"][0]["path"] = [t["name"] + "~f"]
@@ -48,7 +53,7 @@ def rebuild_case(draw, tier, prepopulate=False, partial_decoys=False):
                     # the intact copy may be missing altogether: only the decoy carries the name (C14 must hold then, too)
                     e["real_absent"] = draw(st.sampled_from([True] + [False] * 3))
             files.append(e)
-        torrents.append({"tree": t, "P": P, "creator": creator, "files": files})
+        torrents.append({"tree": t, "P": P, "creator": creator, "files": files, "align": align})
     unrelated = draw(st.lists(st.tuples(placement(nsearch), trees.name_component(), st.integers(0, 3000)), max_size=3))
     case = {"torrents": torrents, "nsearch": nsearch,
             "unrelated": [{"place": p, "name": n, "size": s} for p, n, s in unrelated],
@@ -129,7 +134,7 @@ def build(scr, case):
         tree = tor["tree"]
         root = sandbox.materialize(tree, orig)
         mf = os.path.join(mdir, "t%d.torrent" % ti)
-        common.create(tor["creator"], "lib", root, mf, tor["P"])
+        common.create(tor["creator"], "lib", root, mf, tor["P"], extra_kw={"align": True} if tor.get("align") else None)
         metas.append(mf)
     import shutil
     shutil.rmtree(orig)
